@@ -305,7 +305,7 @@ func runHist17(ops []histOp, oldBase uint64) map[string]any {
 // ---------------------------------------------------------------- text generators
 
 type feat struct {
-	bmp, nonBMP, pipe, code, quoted, tags, crlf, tabs, odd bool
+	bmp, nonBMP, pipe, code, quoted, tags, crlf, tabs, odd, uspace bool
 }
 
 func (f feat) String() string {
@@ -314,7 +314,7 @@ func (f feat) String() string {
 		b bool
 		n string
 	}{{f.bmp, "bmp"}, {f.nonBMP, "nonbmp"}, {f.pipe, "pipe"}, {f.code, "code"}, {f.quoted, "quoted"},
-		{f.tags, "tags"}, {f.crlf, "crlf"}, {f.tabs, "tabs"}, {f.odd, "odd"}} {
+		{f.tags, "tags"}, {f.crlf, "crlf"}, {f.tabs, "tabs"}, {f.odd, "odd"}, {f.uspace, "uspace"}} {
 		if p.b {
 			s += p.n + "+"
 		}
@@ -331,6 +331,18 @@ var (
 	c17Cur    = []string{"$", "€", "£", "¥", "₽", "₴"}
 	c17Com    = []string{"USD", "EUR", "BTC", "AAPL", "X"}
 )
+
+// white space that unicode.IsSpace accepts and the lexer does not skip between tokens: it ends
+// up at the edges of text tokens, tag names and tag values, which are trimmed.
+var c17USpace = []string{"\u00a0", "\u3000", "\u2003", "\f", "\v", "\u0085"}
+
+// usp: a blank, or (feature uspace) now and then a Unicode space, alone or next to a blank.
+func usp(r *rand.Rand, f feat) string {
+	if f.uspace && r.IntN(3) == 0 {
+		return pick(r, []string{"", " ", ""}) + pick(r, c17USpace) + pick(r, []string{"", " ", ""})
+	}
+	return " "
+}
 
 func word17(r *rand.Rand, f feat) string {
 	n := 1 + r.IntN(6)
@@ -405,8 +417,15 @@ func amount17(r *rand.Rand, f feat) string {
 		return pick(r, c17Com) + " " + sign + number17(r)
 	case x < 9 && f.quoted:
 		q := "\"" + words17(r, f, 2) + "\""
-		if r.IntN(8) == 0 {
+		switch r.IntN(12) {
+		case 0:
 			q = q[:len(q)-1] // unterminated
+		case 1:
+			q = "\"\""
+		case 2:
+			q = "\"" + string(pick(r, c17NonBMP)) + " " + word17(r, f) + "\""
+		case 3:
+			q = "\" " + words17(r, f, 2) + " \"" // blanks inside the quotes belong to the lexeme
 		}
 		if r.IntN(2) == 0 {
 			return sign + number17(r) + " " + q
@@ -432,11 +451,17 @@ func tagComment17(r *rand.Rand, f feat) string {
 		if r.IntN(8) == 0 {
 			name += pick(r, []string{"-", "_"}) + word17(r, f)
 		}
+		if f.uspace && r.IntN(4) == 0 {
+			sb.WriteString(pick(r, c17USpace)) // a Unicode space in front of the name is trimmed
+		}
 		sb.WriteString(name + ":")
 		switch r.IntN(5) {
 		case 0: // no value
 		case 1:
-			sb.WriteString(" " + words17(r, f, 2))
+			sb.WriteString(usp(r, f) + words17(r, f, 2))
+			if f.uspace && r.IntN(3) == 0 {
+				sb.WriteString(pick(r, c17USpace))
+			}
 		case 2:
 			sb.WriteString(word17(r, f) + ":" + word17(r, f))
 		default:
@@ -444,7 +469,13 @@ func tagComment17(r *rand.Rand, f feat) string {
 		}
 	}
 	if f.odd && r.IntN(3) == 0 {
-		sb.WriteString(pick(r, []string{",", ", x y:z", ", :v", " a:b", ",,k:", ", k :v", ":"}))
+		sb.WriteString(pick(r, []string{",", ", x y:z", ", :v", " a:b", ",,k:", ", k :v", ":", ", k :yk:1", ", k : k:v", ",k:,k:", ", é:é, 😀:😀", ", k:😀 😀 ,n:"}))
+	}
+	if f.odd && r.IntN(4) == 0 {
+		// a name separated from its colon by a blank is no tag; the same `name:` inside a later word of
+		// the part (or in the next part) must not be taken for it
+		w := word17(r, feat{})
+		sb.WriteString(", " + w + " :" + word17(r, f) + w + ":" + word17(r, f) + pick(r, []string{"", ", " + w + ":" + word17(r, f)}))
 	}
 	if f.odd && r.IntN(3) == 0 {
 		// a part that is skipped (its name has a blank) followed by a tag whose `name:` also
@@ -457,6 +488,9 @@ func tagComment17(r *rand.Rand, f feat) string {
 
 func comment17(r *rand.Rand, f feat) string {
 	lead := pick(r, []string{";", "; ", ";; ", ";  "})
+	if f.uspace && r.IntN(4) == 0 {
+		lead = ";" + pick(r, c17USpace)
+	}
 	if f.tags && r.IntN(3) != 0 {
 		return lead + tagComment17(r, f)
 	}
@@ -489,19 +523,34 @@ func txn17(r *rand.Rand, f feat, out *[]string) {
 	}
 	if f.code && r.IntN(2) == 0 {
 		code := "(" + words17(r, f, 2) + ")"
-		if r.IntN(10) == 0 {
+		switch r.IntN(14) {
+		case 0:
 			code = code[:len(code)-1]
+		case 1:
+			code = code[:len(code)-1] + pick(r, []string{" ", "  ", "\t"}) // unterminated, blanks up to the line end
+		case 2:
+			code = "()"
+		case 3:
+			code = "( " + words17(r, f, 2) + " )"
+		case 4:
+			code = "(" + string(pick(r, c17NonBMP)) + word17(r, f) + ")"
 		}
 		sb.WriteString(" " + code)
 	}
 	if r.IntN(10) != 0 {
-		sep := " "
+		sep := usp(r, f)
 		if f.tabs && r.IntN(5) == 0 {
-			sep = "\t"
+			sep = pick(r, []string{"\t", " \t", "\t\t"})
 		}
 		sb.WriteString(sep + words17(r, f, 3))
+		if f.uspace && r.IntN(4) == 0 {
+			sb.WriteString(pick(r, c17USpace)) // trailing Unicode space: trimmed off the payee
+		}
 		if f.pipe && r.IntN(2) == 0 {
 			sb.WriteString(pick(r, []string{" | ", "|", " |", "| "}) + words17(r, f, 2))
+			if f.uspace && r.IntN(4) == 0 {
+				sb.WriteString(pick(r, c17USpace))
+			}
 		}
 	}
 	if r.IntN(4) == 0 {
@@ -606,7 +655,7 @@ func genJournal17(r *rand.Rand, f feat, maxEntries int) string {
 	return sb.String()
 }
 
-var c17CommentAlphabet = []rune("ab1 :,;-_\t.é中😀")
+var c17CommentAlphabet = []rune("ab1 :,;-_\t.é中😀\u00a0\u3000")
 
 // commentSoup: lines that stress extractTagTokensFromComment.
 func commentSoup17(r *rand.Rand, maxLines int) string {
@@ -628,15 +677,21 @@ func commentSoup17(r *rand.Rand, maxLines int) string {
 
 func randFeat(r *rand.Rand) feat {
 	b := func(n int) bool { return r.IntN(n) == 0 }
-	return feat{bmp: b(2), nonBMP: b(4), pipe: b(3), code: b(3), quoted: b(3), tags: b(2), crlf: b(5), tabs: b(5), odd: b(4)}
+	return feat{bmp: b(2), nonBMP: b(3), pipe: b(3), code: b(3), quoted: b(3), tags: b(2), crlf: b(5), tabs: b(5), odd: b(4), uspace: b(5)}
 }
 
 // genText17: (text, label of the stream it came from).
 func genText17(c *Ctx, maxEntries int) (string, string) {
 	r := c.R
 	switch x := r.IntN(20); {
-	case x < 6: // clean journals: no feature with a known deviation
-		f := feat{bmp: r.IntN(2) == 0, tags: r.IntN(2) == 0}
+	case x < 8: // clean journals: every feature except the one with an open finding (CRLF line ends)
+		f := randFeat(r)
+		f.crlf = false
+		if r.IntN(3) == 0 {
+			// the shapes of the repaired findings together: codes, quoted commodities, tabs and Unicode
+			// spaces before payees, characters outside the BMP before other tokens, tags after them
+			f.code, f.quoted, f.tabs, f.uspace, f.nonBMP, f.tags, f.bmp = true, true, true, true, true, true, true
+		}
 		return genJournal17(r, f, maxEntries), "journal.clean"
 	case x < 15:
 		f := randFeat(r)
